@@ -132,3 +132,97 @@ func Split(r *rand.Rand, c *cfg.Config, mode int) []cfg.File {
 	}
 	return files
 }
+
+// AddDecoys plants values in earlier fragments that a later fragment overrides (scalars,
+// map keys, arguments), so that "later wins / non-empty arguments replace" is exercised.
+// The merge of the fragments is unchanged.
+func AddDecoys(r *rand.Rand, parts []cfg.Config) {
+	for p := 1; p < len(parts); p++ {
+		q := r.Intn(p) // an earlier fragment
+		src, dst := &parts[p], &parts[q]
+		if src.Meta.Pkg != nil && dst.Meta.Pkg == nil && r.Intn(2) == 0 {
+			dst.Meta.Pkg = cfg.P("decoypkg")
+		}
+		if src.Meta.ContainerType != nil && dst.Meta.ContainerType == nil && r.Intn(2) == 0 {
+			dst.Meta.ContainerType = cfg.P("DecoyType")
+		}
+		if src.Meta.DefaultMustGetter != nil && dst.Meta.DefaultMustGetter == nil && r.Intn(2) == 0 {
+			dst.Meta.DefaultMustGetter = cfg.P(!*src.Meta.DefaultMustGetter)
+		}
+		hasKS := func(l []cfg.KS, k string) bool {
+			for _, x := range l {
+				if x.K == k {
+					return true
+				}
+			}
+			return false
+		}
+		for _, kv := range src.Meta.Imports {
+			if !hasKS(dst.Meta.Imports, kv.K) && r.Intn(3) == 0 {
+				dst.Meta.Imports = append(dst.Meta.Imports, cfg.KS{K: kv.K, V: "decoy/import/path"})
+			}
+		}
+		for _, kv := range src.Meta.Functions {
+			if !hasKS(dst.Meta.Functions, kv.K) && r.Intn(3) == 0 {
+				dst.Meta.Functions = append(dst.Meta.Functions, cfg.KS{K: kv.K, V: "decoy.Func"})
+			}
+		}
+		hasKV := func(l []cfg.KV, k string) bool {
+			for _, x := range l {
+				if x.K == k {
+					return true
+				}
+			}
+			return false
+		}
+		for _, kv := range src.Params {
+			if !hasKV(dst.Params, kv.K) && r.Intn(3) == 0 {
+				dst.Params = append(dst.Params, cfg.KV{K: kv.K, V: cfg.Str("decoy value")})
+			}
+		}
+		for _, s := range src.Services {
+			var d *cfg.Service
+			for i := range dst.Services {
+				if dst.Services[i].Name == s.Name {
+					d = &dst.Services[i]
+				}
+			}
+			if d == nil {
+				if r.Intn(2) == 0 {
+					continue
+				}
+				dst.Services = append(dst.Services, cfg.Service{Name: s.Name})
+				d = &dst.Services[len(dst.Services)-1]
+			}
+			if s.Getter != nil && d.Getter == nil && r.Intn(2) == 0 {
+				d.Getter = cfg.P("DecoyGetter")
+			}
+			if s.MustGetter != nil && d.MustGetter == nil && r.Intn(2) == 0 {
+				d.MustGetter = cfg.P(!*s.MustGetter)
+			}
+			if s.Type != nil && d.Type == nil && r.Intn(2) == 0 {
+				d.Type = cfg.P("*decoy.Type")
+			}
+			if s.Constructor != nil && d.Constructor == nil && r.Intn(2) == 0 {
+				d.Constructor = cfg.P("decoy.New")
+			}
+			if s.Value != nil && d.Value == nil && r.Intn(2) == 0 {
+				d.Value = cfg.P("decoy.Value")
+			}
+			if s.Scope != nil && d.Scope == nil && r.Intn(2) == 0 {
+				d.Scope = cfg.P([]string{"shared", "contextual", "non_shared"}[r.Intn(3)])
+			}
+			if s.Todo != nil && d.Todo == nil && r.Intn(2) == 0 {
+				d.Todo = cfg.P(!*s.Todo)
+			}
+			if len(s.Args) > 0 && len(d.Args) == 0 && r.Intn(2) == 0 {
+				d.Args = []cfg.Val{cfg.Str("decoy"), cfg.Int(1), cfg.Str("@decoy")}
+			}
+			for _, f := range s.Fields {
+				if !hasKV(d.Fields, f.K) && r.Intn(2) == 0 {
+					d.Fields = append(d.Fields, cfg.KV{K: f.K, V: cfg.Str("decoy field")})
+				}
+			}
+		}
+	}
+}
